@@ -1,23 +1,67 @@
-import Revm.Proofs.Bundle
+import Revm.Proofs.BundleInvExtend
 /-! C18 — splitting and joining bundles does not change what they describe.
 
 Full statement: `Spec.Bundle.ExtendStatement` (extend of a split history ≙ monolithic bundle: same
-post-state changeset, same per-block pre-values). Proved here: `take_n_reverts` is `List.splitAt`
-(and `take_all_reverts` its `n > len` case), `prepend_state` / `extend_state` never override values of
-the newer bundle and keep addresses that only the older one has. NOT proved in general: the `extend`
-statement itself; it is false of the current code on EVM-reachable split histories:
-* F3 (see C16) — second half built after `take_bundle` on a continuing `State`;
-* F4 — `extend` keeps a `Destroyed` marker of the second bundle's wiping revert instead of the first
-  bundle's present value (`entry(key).or_insert(..)`): the per-block pre-value is lost;
-* F5 — reverts of the second half carry `previous_status` of a different cache lineage, so `revert`
-  on the extended bundle leaves a non-destroyed status and the wipe is lost.
-The post-state part of the statement (fresh `State` per half, both flags, accounts destroyed in both
-halves) and the pre-value part on destroy-free extended bundles are carried by the correspondence
-oracles (`check t`, `revert t`). -/
+post-state changeset, same per-block pre-values), for halves built by a fresh `State` over the committed
+first half.
+
+PROVED at full strength: `extend_post_state` (post-state half of the statement, all databases, EVM-reachable
+split histories, merge schedules, both flags; no exclusion) — `extend(A, B)` applied to the pre-state of A
+gives the post-state of B, including accounts destroyed in either or both halves.
+PROVED in the explicit decidable region outside finding F4: `extend_assoc_partial` — the whole
+`ExtendStatement` (post-state and per-block pre-values under the database reading of `Destroyed`) whenever
+`extendOk A B`: no storage-wiping revert of B lists as `Destroyed` a slot that A's account holds. Without
+`extendOk` the pre-value half is false of the code (F4, `extend_prevalue_counterexample`:
+`entry(key).or_insert(..)` keeps the `Destroyed` marker instead of A's present value), so `FullStatement`
+itself is not provable.
+Outside the statement (not about what `extend` describes, but about `revert` afterwards): F5 — reverts of the
+second half carry `previous_status` of another cache lineage; F3 (see C16) — second half built after
+`take_bundle` on a continuing `State` (excluded by "fresh State").
+Also proved: `take_n_reverts` is `List.splitAt` (and `take_all_reverts` its `n > len` case),
+`prepend_state` / `extend_state` never override values of the newer bundle and keep older-only addresses.
+Proof of the extend theorems (Proofs/BundleInvExtend.lean): C16's invariant for both halves, the invariant
+"an address with a wiping revert is in the bundle with a destroyed status, and is wiped in at most one
+block", a closed form of the revert-rewriting loop of `extend`, and per-revert semantics (`modRev_sem`). -/
 namespace Revm.Props.C18
 open Revm.Model.Bundle Revm.Spec.Bundle Revm.Proofs.Bundle
 
 def FullStatement : Prop := ExtendStatement true
+
+/-- post-state half of `FullStatement` -/
+def FullStatementPostState : Prop := ExtendPostStatement
+
+/-- **C18, post-state, headline**: for every database, both state-clear settings, every EVM-reachable
+history split at any group boundary (each half under any merge schedule, each by a fresh `State` over the
+state committed so far), both `OriginalValuesKnown` settings: `extend(A, B)`'s changeset applied to the
+pre-state of A is the post-state of B; nothing panics -/
+theorem extend_post_state : FullStatementPostState := extend_post_proof
+
+/-- **C18, whole statement outside F4**: the post-state as above and, when no storage-wiping revert of B
+lists as `Destroyed` a slot held by A's account (`extendOk`, decidable), every block of the extended
+bundle's plain reverts maps the reference state after its group to the one before it. Missing for
+`FullStatement`: the region `extendOk = false`, where the statement is false of the code (F4 below). -/
+theorem extend_assoc_partial (db db2 : BMap Info) (sc : Bool) (p0 : Plain) (h1 h2 : List Group) (known : Bool)
+    (hdb : dbMatches db p0) (hwf : plainWF p0) (hr : reachHistory sc p0 (h1 ++ h2) = true) :
+    ∃ l1 l2, runHistory { db := db, sc := sc } p0 h1 = some l1 ∧
+      ∀ s1 r1, l1.getLast? = some (s1, r1) → dbMatches db2 r1 →
+        runHistory { db := db2, sc := sc } r1 h2 = some l2 ∧
+        ∀ s2 r2, l2.getLast? = some (s2, r2) →
+          PlainEq (applyChangeset (toPlainState (extend s1.bundle s2.bundle) known) p0) r2 ∧
+          (extendOk s1.bundle s2.bundle = true →
+            ∀ (k : Nat) blk before after, (toPlainStateReverts (extend s1.bundle s2.bundle))[k]? = some blk →
+              ((p0 :: (l1 ++ l2).map (·.2))[k]? = some before) → (((l1 ++ l2).map (·.2))[k]? = some after) →
+              PlainEq (applyRevertBlock true p0 blk after) before) :=
+  extend_partial_proof db db2 sc p0 h1 h2 known hdb hwf hr
+
+/-- the region is non-trivial: bundle A writes slot 2 of contract 2, bundle B destroys and re-creates the
+contract writing slot 1 (a wiping revert with a `Destroyed` slot): `extendOk`, and the extended bundle's
+blocks give slot (2,2) the pre-values 0 and 7; F4's split is outside the region -/
+example :
+    (Wit.split Wit.f4db [(2, ⟨3, 1, 1, false⟩)] Wit.f4p0
+        [[[(2, Wit.ea 3 1 1 false false [(2, ⟨0, 7⟩)])]]] Wit.f4h2).map (fun (a, b, r1, r2) =>
+      (extendOk a b, Wit.slotsBefore true (extend a b) Wit.f4p0 [r1, r2] 2 2)) = some (true, [0, 7]) ∧
+    (Wit.split Wit.f4db [(2, ⟨3, 1, 1, false⟩)] Wit.f4p0 Wit.f4h1 Wit.f4h2).map (fun (a, b, _, _) =>
+      extendOk a b) = some false := by decide
 
 /-- `take_n_reverts(n)` returns the first n blocks and leaves the rest: it is `List.splitAt n`
 (for `n > len` the code's `take_all_reverts` branch agrees with `splitAt`) -/
